@@ -165,6 +165,27 @@ class TStr:
             break
         return TStr(toks)
 
+    def replace_all(self, old, new):
+        """t.replace(old, new): EVERY occurrence is replaced.  Exact inside literal parts; a symbolic prefix that can
+        contain `old` ('m' is a prefix) is rewritten too for that value: 'bad'."""
+        out = []
+        for t in self.tokens:
+            if t[0] == 'lit':
+                out.append(('lit', t[1].replace(old, new)))
+            elif t[0] == 'pre':
+                hit = sorted(p_ for p_ in SI if p_ and old in p_)
+                if hit:
+                    return TStr([('bad', f"replace({old!r}, {new!r}) rewrites every occurrence: also the prefix "
+                                         f"{hit[0]!r} in front of the unit")])
+                out.append(t)
+            elif t[0] == 'num':
+                if set(old) & NUM_CHARS:
+                    return TStr([('bad', f"replace({old!r}, ..) can rewrite characters of the number")])
+                out.append(t)
+            else:
+                out.append(t)
+        return TStr(out)
+
     def removesuffix(self, suffix):
         """t.removesuffix(lit): exact when endswith is decided."""
         r = self.endswith(suffix)
